@@ -1,0 +1,139 @@
+//go:build verif
+
+package validate
+
+// Contracts for /verif (govc).  No code here.
+
+// ---- option-length checks (C14) ----
+
+//@ define lenOK(v, n) = v == nil || len(v) == n
+//@ define entryLenOK(v, n) = len(v) == 0 || len(v) == n
+
+//@ define rtmrsLenOK(r) = len(r) == 0 || (len(r) == 4 && (forall i :: 0 <= i && i < 4 ==> entryLenOK(r[i], 48)))
+//@ define anyLenOK(a) = forall i :: 0 <= i && i < len(a) ==> entryLenOK(a[i], 48)
+
+//@ define optsLenOK(o) = lenOK(o.TdQuoteBodyOptions.MrSeam, 48) && lenOK(o.TdQuoteBodyOptions.TdAttributes, 8)
+//@ |   && lenOK(o.TdQuoteBodyOptions.Xfam, 8) && lenOK(o.TdQuoteBodyOptions.MrTd, 48)
+//@ |   && lenOK(o.TdQuoteBodyOptions.MrConfigID, 48) && lenOK(o.TdQuoteBodyOptions.MrOwner, 48)
+//@ |   && lenOK(o.TdQuoteBodyOptions.MrOwnerConfig, 48) && lenOK(o.TdQuoteBodyOptions.ReportData, 64)
+//@ |   && lenOK(o.HeaderOptions.QeVendorID, 16) && lenOK(o.TdQuoteBodyOptions.MinimumTeeTcbSvn, 16)
+//@ |   && rtmrsLenOK(o.TdQuoteBodyOptions.Rtmrs) && anyLenOK(o.TdQuoteBodyOptions.AnyMrTd)
+
+//@ func lengthCheck(name, length, value) (err)
+//@   ensures[iff] err == nil <==> lenOK(value, length)
+
+//@ func lengthCheckMany(name, constraint, length, value) (err)
+//@   inline
+//@   loop 0: invariant forall j :: 0 <= j && j <= rangeindex ==> entryLenOK(value[j], length)
+
+//@ func checkOptionsLengths(opts) (err)
+//@   requires opts != nil
+//@   ensures[iff] err == nil <==> optsLenOK(opts)
+
+// nil-safe reading of a policy message (what the generated getters do)
+//@ define hpOf(p) = ite(p != nil, p.HeaderPolicy, nil)
+//@ define bpOf(p) = ite(p != nil, p.TdQuoteBodyPolicy, nil)
+//@ define polQe(p) = ite(hpOf(p) != nil, hpOf(p).MinimumQeSvn, uint32(0))
+//@ define polPce(p) = ite(hpOf(p) != nil, hpOf(p).MinimumPceSvn, uint32(0))
+
+//@ define sameSlice(a, b) = a == b
+
+//@ func PolicyToOptions(policy) (r, err)
+//@   records policytooptions
+//@   ensures[range] polQe(policy) > 65535 || polPce(policy) > 65535 ==> err != nil
+//@   ensures[length] err == nil ==> r != nil && optsLenOK(r)
+//@   ensures[map-header] err == nil ==> r.HeaderOptions.MinimumQeSvn == uint16(polQe(policy)) && r.HeaderOptions.MinimumPceSvn == uint16(polPce(policy))
+//@ |     && sameSlice(r.HeaderOptions.QeVendorID, ite(hpOf(policy) != nil, hpOf(policy).QeVendorId, nil))
+//@   ensures[map-body] err == nil && bpOf(policy) != nil ==>
+//@ |     sameSlice(r.TdQuoteBodyOptions.MinimumTeeTcbSvn, bpOf(policy).MinimumTeeTcbSvn)
+//@ |     && sameSlice(r.TdQuoteBodyOptions.MrSeam, bpOf(policy).MrSeam) && sameSlice(r.TdQuoteBodyOptions.TdAttributes, bpOf(policy).TdAttributes)
+//@ |     && sameSlice(r.TdQuoteBodyOptions.Xfam, bpOf(policy).Xfam) && sameSlice(r.TdQuoteBodyOptions.MrTd, bpOf(policy).MrTd)
+//@ |     && sameSlice(r.TdQuoteBodyOptions.MrConfigID, bpOf(policy).MrConfigId) && sameSlice(r.TdQuoteBodyOptions.MrOwner, bpOf(policy).MrOwner)
+//@ |     && sameSlice(r.TdQuoteBodyOptions.MrOwnerConfig, bpOf(policy).MrOwnerConfig) && sameSlice(r.TdQuoteBodyOptions.Rtmrs, bpOf(policy).Rtmrs)
+//@ |     && sameSlice(r.TdQuoteBodyOptions.ReportData, bpOf(policy).ReportData) && sameSlice(r.TdQuoteBodyOptions.AnyMrTd, bpOf(policy).AnyMrTd)
+//@   ensures[map-body-absent] err == nil && bpOf(policy) == nil ==>
+//@ |     r.TdQuoteBodyOptions.MinimumTeeTcbSvn == nil && r.TdQuoteBodyOptions.MrSeam == nil && r.TdQuoteBodyOptions.TdAttributes == nil
+//@ |     && r.TdQuoteBodyOptions.Xfam == nil && r.TdQuoteBodyOptions.MrTd == nil && r.TdQuoteBodyOptions.MrConfigID == nil
+//@ |     && r.TdQuoteBodyOptions.MrOwner == nil && r.TdQuoteBodyOptions.MrOwnerConfig == nil && r.TdQuoteBodyOptions.Rtmrs == nil
+//@ |     && r.TdQuoteBodyOptions.ReportData == nil && r.TdQuoteBodyOptions.AnyMrTd == nil
+//@   ensures[converts] polQe(policy) <= 65535 && polPce(policy) <= 65535 && (bpOf(policy) == nil || bpLenOK(bpOf(policy)))
+//@ |     && (hpOf(policy) == nil || lenOK(hpOf(policy).QeVendorId, 16)) ==> err == nil
+
+//@ define bpLenOK(b) = lenOK(b.MrSeam, 48) && lenOK(b.TdAttributes, 8) && lenOK(b.Xfam, 8) && lenOK(b.MrTd, 48)
+//@ |   && lenOK(b.MrConfigId, 48) && lenOK(b.MrOwner, 48) && lenOK(b.MrOwnerConfig, 48) && lenOK(b.ReportData, 64)
+//@ |   && lenOK(b.MinimumTeeTcbSvn, 16) && rtmrsLenOK(b.Rtmrs) && anyLenOK(b.AnyMrTd)
+
+// ---- field comparison (C08) ----
+
+// bc: one configured exact-match expectation r of width n against quote field g
+//@ define bc(g, r, n) = len(r) == 0 || (len(r) == n && seq(r) == seq(g))
+
+//@ func byteCheck(option, field, size, given, required) (err)
+//@   ensures[iff] err == nil <==> bc(given, required, size)
+
+//@ func byteCheckRtmr(size, given, required) (err)
+//@   requires len(given) == 4
+//@   ensures[iff] err == nil <==> len(required) == 0 || (len(required) == 4 && (forall i :: 0 <= i && i < 4 ==> bc(given[i], required[i], size)))
+//@   loop 0: unroll 4
+
+//@ func byteCheckAny(size, given, allowed) (err)
+//@   ensures[iff] err == nil <==> len(allowed) == 0 || (exists i :: 0 <= i && i < len(allowed) && bc(given, allowed[i], size))
+//@   loop 0: invariant forall j :: 0 <= j && j <= rangeindex ==> !bc(given, allowed[j], size)
+
+//@ define exactOK(q, o) = bc(q.TdQuoteBody.MrSeam, o.TdQuoteBodyOptions.MrSeam, 48) && bc(q.TdQuoteBody.TdAttributes, o.TdQuoteBodyOptions.TdAttributes, 8)
+//@ |   && bc(q.TdQuoteBody.Xfam, o.TdQuoteBodyOptions.Xfam, 8) && bc(q.TdQuoteBody.MrTd, o.TdQuoteBodyOptions.MrTd, 48)
+//@ |   && bc(q.TdQuoteBody.MrConfigId, o.TdQuoteBodyOptions.MrConfigID, 48) && bc(q.TdQuoteBody.MrOwner, o.TdQuoteBodyOptions.MrOwner, 48)
+//@ |   && bc(q.TdQuoteBody.MrOwnerConfig, o.TdQuoteBodyOptions.MrOwnerConfig, 48)
+//@ |   && (len(o.TdQuoteBodyOptions.Rtmrs) == 0 || (len(o.TdQuoteBodyOptions.Rtmrs) == 4
+//@ |        && (forall i :: 0 <= i && i < 4 ==> bc(q.TdQuoteBody.Rtmrs[i], o.TdQuoteBodyOptions.Rtmrs[i], 48))))
+//@ |   && (len(o.TdQuoteBodyOptions.AnyMrTd) == 0 || (exists i :: 0 <= i && i < len(o.TdQuoteBodyOptions.AnyMrTd)
+//@ |        && bc(q.TdQuoteBody.MrTd, o.TdQuoteBodyOptions.AnyMrTd[i], 48)))
+//@ |   && bc(q.TdQuoteBody.ReportData, o.TdQuoteBodyOptions.ReportData, 64) && bc(q.Header.QeVendorId, o.HeaderOptions.QeVendorID, 16)
+
+//@ func exactByteMatch(quote, opts) (err)
+//@   requires quoteOK(quote) && opts != nil
+//@   ensures[iff] err == nil <==> exactOK(quote, opts)
+
+// ---- minimum versions ----
+
+//@ define svnGE(t, m) = len(m) == 0 || (len(m) == 16 && (forall i :: 0 <= i && i < 16 ==> t[i] >= m[i]))
+
+//@ func isSvnHigherOrEqual(quoteSvn, optionSvn) (r)
+//@   requires len(optionSvn) == 0 || len(optionSvn) == len(quoteSvn)
+//@   ensures[iff] r <==> (len(optionSvn) == 0 || (forall i :: 0 <= i && i < len(quoteSvn) ==> quoteSvn[i] >= optionSvn[i]))
+//@   loop 0: invariant forall j :: 0 <= j && j <= rangeindex ==> quoteSvn[j] >= optionSvn[j]
+
+//@ define minOK(q, o) = svnGE(q.TdQuoteBody.TeeTcbSvn, o.TdQuoteBodyOptions.MinimumTeeTcbSvn)
+//@ |   && rd16(seq(q.Header.QeSvn), 0) >= o.HeaderOptions.MinimumQeSvn && rd16(seq(q.Header.PceSvn), 0) >= o.HeaderOptions.MinimumPceSvn
+
+//@ func minVersionCheck(quote, opts) (err)
+//@   requires quoteOK(quote) && opts != nil
+//@   ensures[iff] err == nil <==> minOK(quote, opts)
+
+// ---- fixed-bit masks: literal constants of the property statement ----
+
+//@ define maskOK(v, fixed1, fixed0) = (rd64(seq(v), 0) & fixed1) == fixed1 && (rd64(seq(v), 0) & (^fixed0)) == 0
+
+//@ func validateXfam(value, fixed1, fixed0) (err)
+//@   ensures[iff] err == nil <==> len(value) == 0 || (len(value) == 8 && maskOK(value, fixed1, fixed0))
+
+//@ func validateTdAttributes(value, fixed1, fixed0) (err)
+//@   ensures[iff] err == nil <==> len(value) == 0 || (len(value) == 8 && maskOK(value, fixed1, fixed0))
+
+//@ define policyOK(q, o) = exactOK(q, o) && minOK(q, o)
+//@ |   && maskOK(q.TdQuoteBody.Xfam, uint64(0x3), uint64(0x0006DBE7))
+//@ |   && maskOK(q.TdQuoteBody.TdAttributes, uint64(0), uint64(0x8000000050000001))
+
+//@ func tdxQuoteV4(quote, options) (err)
+//@   requires options != nil
+//@   ensures[exact] err == nil <==> quoteOK(quote) && policyOK(quote, options)
+
+//@ func TdxQuote(quote, options) (err)
+//@   records validate_tdxquote
+//@   ensures[nil-options] options == nil ==> err != nil
+//@   ensures[type] !typeis(quote, "*tdx.QuoteV4") ==> err != nil
+//@   ensures[exact] options != nil && typeis(quote, "*tdx.QuoteV4") ==>
+//@ |     (err == nil <==> quoteOK(as(quote, "*tdx.QuoteV4")) && policyOK(as(quote, "*tdx.QuoteV4"), options))
+
+//@ func RawTdxQuote(raw, options) (err)
+//@   ensures[gate] err == nil ==> quoteWF(seq(raw)) && options != nil
